@@ -1,6 +1,8 @@
-(* Proofs about Model/RelayAcct.v (C10, L4 connection accounting). *)
+(* Proofs about Model/RelayAcct.v (C10, L4 connection accounting).  Nothing here depends on Gen/*.v: the lemmas are proved
+   for the two shapes of the accounting that are constants of the model (sw_repaired, sw_old); Props/C10_relay.v compares the
+   generated src_sw with sw_repaired by conversion. *)
 From Coq Require Import List ZArith Bool Lia ZifyBool.
-From MV Require Import Model.RelayAcct Gen.RelayAcctSrc.
+From MV Require Import Model.RelayAcct.
 Import ListNotations.
 Open Scope Z_scope.
 
@@ -55,13 +57,11 @@ Lemma run_sums w c evs : Sums (run w c evs).
 Proof. apply fold_sums. unfold Sums; cbn. lia. Qed.
 
 (* ------------------------------------------------------------------ what a session holds, by phase *)
-Definition good_sw (w : sw) : bool := negb (acct_before w) && negb (err_decreases w).
-
 Definition unit_res (c : cfg) : Z := if maxc c =? 0 then 0 else 1.
 
-Definition SessOk (c : cfg) (s : sess) : Prop :=
+Definition SessOk (w : sw) (c : cfg) (s : sess) : Prop :=
   match ph s with
-  | Accepted | Dialing _ => hs s = false /\ h_res s = 0 /\ h_host s = 0 /\ h_clu s = 0 /\ h_down s = 1
+  | Accepted | Dialing _ => (acct_before w = false -> hs s = false) /\ h_res s = 0 /\ h_host s = 0 /\ h_clu s = 0 /\ h_down s = 1
   | Live => hs s = true /\ h_res s = unit_res c /\ h_host s = 1 /\ h_clu s = 1 /\ h_down s = 1
   | Done => h_res s = 0 /\ h_host s = 0 /\ h_clu s = 0 /\ h_down s = 0
   end.
@@ -71,48 +71,81 @@ Proof. unfold bump, unit_res. destruct (maxc c =? 0); reflexivity. Qed.
 Lemma bump_back c : bump c (unit_res c) (-1) = 0.
 Proof. unfold bump, unit_res. destruct (maxc c =? 0); reflexivity. Qed.
 
-Lemma dial_ok w c s k o : good_sw w = true -> o <> ConnOkEarly -> ph s = Dialing (S k) -> SessOk c s -> SessOk c (dial w c s k o).
+(* the phase after a connect attempt does not depend on the accounting *)
+Lemma dial_phase w c s k o :
+  ph (dial w c s k o) =
+  match o with ConnOk => Live | ConnOkEarly => Done | _ => match k with O => Done | S _ => Dialing k end end.
+Proof. destruct o, k; reflexivity. Qed.
+
+(* ---- the two shapes, by computation *)
+Definition okb_all (o : outcome) : bool := true.
+Definition okb_no_early (o : outcome) : bool := match o with ConnOkEarly => false | _ => true end.
+
+Lemma bump_inv c : bump c (bump c 0 1) (-1) = 0.
+Proof. unfold bump. destruct (maxc c =? 0); reflexivity. Qed.
+
+Ltac dial_tac :=
+  cbv [dial undo set_res set_hs add_gauges set_ph close_d SessOk sw_repaired sw_old
+       acct_before gauges_before err_decreases err_undoes_gauges err_unsets_host timeout_finalizes
+       ph hs h_res h_host h_clu h_down andb negb];
+  rewrite ?bump_inv, ?bump_unit, ?bump_back; repeat split; intros; try discriminate; try reflexivity; try lia.
+
+(* repaired shape: every outcome, the early close included *)
+Lemma dial_ok_repaired c s k o : ph s = Dialing (S k) -> SessOk sw_repaired c s -> SessOk sw_repaired c (dial sw_repaired c s k o).
 Proof.
-  unfold good_sw. intros Hw Ho Hp Hs. unfold SessOk in Hs. rewrite Hp in Hs. destruct Hs as (H1 & H2 & H3 & H4 & H5).
-  destruct w as [ab ed tf]. cbn in Hw. destruct ab, ed; try discriminate. clear Hw.
-  destruct s as [p h r ho cl dn]. cbn in *. subst.
-  destruct o; try congruence; unfold dial; cbn; rewrite ?andb_false_r; destruct k; cbn; unfold SessOk; cbn;
-    rewrite ?bump_unit; repeat split; lia.
+  intros Hp Hs. unfold SessOk in Hs. rewrite Hp in Hs. destruct Hs as (_ & H2 & H3 & H4 & H5).
+  destruct s as [p h r ho cl dn]. cbn [ph hs h_res h_host h_clu h_down] in *. subst.
+  destruct o, k; dial_tac.
 Qed.
 
-Lemma finish_ok c s : ph s = Live -> SessOk c s -> SessOk c (finish c s).
+(* shape before the repair: every outcome but the early close *)
+Lemma dial_ok_old c s k o : okb_no_early o = true -> ph s = Dialing (S k) -> SessOk sw_old c s -> SessOk sw_old c (dial sw_old c s k o).
+Proof.
+  intros Ho Hp Hs. unfold SessOk in Hs. rewrite Hp in Hs. destruct Hs as (H1 & H2 & H3 & H4 & H5).
+  specialize (H1 eq_refl).
+  destruct s as [p h r ho cl dn]. cbn [ph hs h_res h_host h_clu h_down] in *. subst.
+  destruct o, k; try discriminate Ho; dial_tac.
+Qed.
+
+Section Generic.
+Variable w : sw.
+Variable okb : outcome -> bool.
+Hypothesis Hdial : forall c s k o, okb o = true -> ph s = Dialing (S k) -> SessOk w c s -> SessOk w c (dial w c s k o).
+
+Definition allowed (e : event) : bool := match e with Dial _ o => okb o | _ => true end.
+
+Lemma finish_ok c s : ph s = Live -> SessOk w c s -> SessOk w c (finish c s).
 Proof.
   intros Hp Hs. unfold SessOk in Hs. rewrite Hp in Hs. destruct Hs as (H1 & H2 & H3 & H4 & H5).
   unfold finish, SessOk. cbn. rewrite H1, H2, H3, H4, H5, bump_back. repeat split; lia.
 Qed.
 
-Lemma close_d_ok c s : (ph s = Accepted \/ exists k, ph s = Dialing k) -> SessOk c s -> SessOk c (close_d s).
+Lemma close_d_ok c s : (ph s = Accepted \/ exists k, ph s = Dialing k) -> SessOk w c s -> SessOk w c (close_d s).
 Proof.
   intros Hp Hs. unfold SessOk in Hs.
-  assert (H : hs s = false /\ h_res s = 0 /\ h_host s = 0 /\ h_clu s = 0 /\ h_down s = 1)
+  assert (H : (acct_before w = false -> hs s = false) /\ h_res s = 0 /\ h_host s = 0 /\ h_clu s = 0 /\ h_down s = 1)
     by (destruct Hp as [Hp|[k Hp]]; rewrite Hp in Hs; exact Hs).
   destruct H as (H1 & H2 & H3 & H4 & H5). unfold close_d, SessOk. cbn. repeat split; lia.
 Qed.
 
-Definition AllOk (c : cfg) (g : gst) : Prop := Forall (SessOk c) (ss g).
+Definition AllOk (c : cfg) (g : gst) : Prop := Forall (SessOk w c) (ss g).
 
 Lemma nth_Forall {A} (P : A -> Prop) l i x : Forall P l -> nth_error l i = Some x -> P x.
 Proof. intros H E. rewrite Forall_forall in H. apply H. eapply nth_error_In; eassumption. Qed.
 
-Lemma step_allok w c g e : good_sw w = true -> is_early e = false -> AllOk c g -> AllOk c (step w c g e).
+Lemma step_allok c g e : allowed e = true -> AllOk c g -> AllOk c (step w c g e).
 Proof.
-  intros Hw He A. unfold AllOk in *. destruct e as [|i|i o|i|i]; cbn [step].
-  - cbn [ss]. apply Forall_app. split; [exact A|]. constructor; [|constructor]. unfold SessOk; cbn. repeat split; lia.
+  intros Hw A. unfold AllOk in *. destruct e as [|i|i o|i|i]; cbn [step].
+  - cbn [ss]. apply Forall_app. split; [exact A|]. constructor; [|constructor]. unfold SessOk; cbn. repeat split; auto; lia.
   - destruct (nth_error (ss g) i) as [s|] eqn:E; [|exact A]. pose proof (nth_Forall _ _ _ _ A E) as Hs.
     destruct (ph s) eqn:Hp; try exact A.
     destruct (can_create c (res g)); [destruct (tries c) eqn:Ht|]; unfold commit; cbn [ss]; apply Forall_upd; try exact A.
     + apply close_d_ok; [now left|exact Hs].
-    + unfold SessOk in *. rewrite Hp in Hs. cbn. exact Hs.
+    + unfold SessOk, set_ph in *. rewrite Hp in Hs. cbn. exact Hs.
     + apply close_d_ok; [now left|exact Hs].
   - destruct (nth_error (ss g) i) as [s|] eqn:E; [|exact A]. pose proof (nth_Forall _ _ _ _ A E) as Hs.
     destruct (ph s) as [|[|k]| |] eqn:Hp; try exact A.
-    unfold commit; cbn [ss]; apply Forall_upd; [exact A|]. apply dial_ok; try assumption.
-    intros ->. cbn in He. discriminate.
+    unfold commit; cbn [ss]; apply Forall_upd; [exact A|]. apply Hdial; try assumption.
   - destruct (nth_error (ss g) i) as [s|] eqn:E; [|exact A]. pose proof (nth_Forall _ _ _ _ A E) as Hs.
     destruct (ph s) eqn:Hp; try exact A. unfold commit; cbn [ss]; apply Forall_upd; [exact A|]. now apply finish_ok.
   - destruct (nth_error (ss g) i) as [s|] eqn:E; [|exact A]. pose proof (nth_Forall _ _ _ _ A E) as Hs.
@@ -121,18 +154,17 @@ Proof.
     + now apply finish_ok.
 Qed.
 
-Lemma fold_allok w c evs : good_sw w = true -> forall g, no_early evs = true -> AllOk c g -> AllOk c (fold_left (step w c) evs g).
+Lemma fold_allok c evs : forall g, forallb allowed evs = true -> AllOk c g -> AllOk c (fold_left (step w c) evs g).
 Proof.
-  intros Hw. induction evs as [|e evs IH]; cbn; intros g Hn A; [exact A|].
-  apply andb_true_iff in Hn. destruct Hn as [He Hn]. apply IH; [exact Hn|]. apply step_allok; try assumption.
-  now apply negb_true_iff in He.
+  induction evs as [|e evs IH]; cbn; intros g Hn A; [exact A|].
+  apply andb_true_iff in Hn. destruct Hn as [He Hn]. apply IH; [exact Hn|]. now apply step_allok.
 Qed.
 
-Lemma run_allok w c evs : good_sw w = true -> no_early evs = true -> AllOk c (run w c evs).
-Proof. intros Hw Hn. apply fold_allok; try assumption. constructor. Qed.
+Lemma run_allok c evs : forallb allowed evs = true -> AllOk c (run w c evs).
+Proof. intros Hn. apply fold_allok; [assumption|constructor]. Qed.
 
 (* sums of well-formed sessions are counts *)
-Lemma sums_counts c l : Forall (SessOk c) l ->
+Lemma sums_counts c l : Forall (SessOk w c) l ->
   sumf h_res l = unit_res c * count is_live l /\ sumf h_host l = count is_live l /\ sumf h_clu l = count is_live l /\
   sumf h_down l = count (fun s => negb (is_done s)) l /\
   0 <= count is_live l /\ 0 <= count (fun s => negb (is_done s)) l.
@@ -150,7 +182,7 @@ Lemma unit_res_bounds c : 0 <= unit_res c <= 1.
 Proof. unfold unit_res. destruct (maxc c =? 0); lia. Qed.
 
 (* the statement of c10_l4_conserved *)
-Lemma l4_conserved w c evs : good_sw w = true -> no_early evs = true ->
+Lemma l4_conserved c evs : forallb allowed evs = true ->
   let g := run w c evs in
   (* every session holds 0 or 1 of each counter, and nothing once it is over *)
   Forall (fun s => 0 <= h_res s <= 1 /\ 0 <= h_host s <= 1 /\ 0 <= h_clu s <= 1 /\ 0 <= h_down s <= 1 /\
@@ -163,7 +195,7 @@ Lemma l4_conserved w c evs : good_sw w = true -> no_early evs = true ->
   0 <= res g /\ 0 <= g_host g /\ 0 <= g_clu g /\ 0 <= g_down g /\
   (forallb is_done (ss g) = true -> res g = 0 /\ g_host g = 0 /\ g_clu g = 0 /\ g_down g = 0).
 Proof.
-  intros Hw Hn g. pose proof (run_sums w c evs) as (S1 & S2 & S3 & S4). pose proof (run_allok w c evs Hw Hn) as A.
+  intros Hn g. pose proof (run_sums w c evs) as (S1 & S2 & S3 & S4). pose proof (run_allok c evs Hn) as A.
   fold g in S1, S2, S3, S4, A. unfold AllOk in A. pose proof (sums_counts c _ A) as (C1 & C2 & C3 & C4 & C5 & C6).
   pose proof (unit_res_bounds c) as U.
   split.
@@ -191,11 +223,11 @@ Proof. unfold count. induction l as [|s l IH]; cbn; [lia|]. destruct (f s); lia.
 Definition SerInv (c : cfg) (g : gst) : Prop :=
   count is_dialing (ss g) <= 1 /\ count is_live (ss g) + count is_dialing (ss g) <= maxc c.
 
-Lemma step_serinv w c g e : good_sw w = true -> is_early e = false -> 0 < maxc c -> AllOk c g -> Sums g ->
+Lemma step_serinv c g e : 0 < maxc c -> AllOk c g -> Sums g ->
   (match e with Admit _ => count is_dialing (ss g) =? 0 | _ => true end) = true ->
   SerInv c g -> SerInv c (step w c g e).
 Proof.
-  intros Hw He Hm A S Hser [I1 I2]. unfold SerInv.
+  intros Hm A S Hser [I1 I2]. unfold SerInv.
   pose proof (sums_counts c _ A) as (C1 & _ & _ & _ & C5 & _).
   assert (Hres : res g = count is_live (ss g)).
   { destruct S as (S1 & _). rewrite S1, C1. unfold unit_res. destruct (maxc c =? 0) eqn:E; lia. }
@@ -206,32 +238,23 @@ Proof.
   - destruct (nth_error (ss g) i) as [s|] eqn:E; [|split; assumption]. destruct (ph s) eqn:Hp; try (split; assumption).
     apply Z.eqb_eq in Hser.
     destruct (can_create c (res g)) eqn:Hc; [destruct (tries c) eqn:Ht|]; unfold commit; cbn [ss];
-      rewrite !(count_upd _ _ _ _ _ E); unfold is_live, is_dialing, close_d in *; cbn [ph]; rewrite Hp; try lia.
+      rewrite !(count_upd _ _ _ _ _ E); unfold is_live, is_dialing, close_d, set_ph in *; cbn [ph]; rewrite Hp; try lia.
     all: unfold can_create in Hc; lia.
   - destruct (nth_error (ss g) i) as [s|] eqn:E; [|split; assumption]. destruct (ph s) as [|[|k]| |] eqn:Hp; try (split; assumption).
     unfold commit; cbn [ss]; rewrite !(count_upd _ _ _ _ _ E). unfold is_live, is_dialing in *. rewrite Hp.
-    assert (Hd : forall s', ph s' = Live \/ ph s' = Done \/ (exists j, ph s' = Dialing j) ->
-                 (if match ph s' with Live => true | _ => false end then 1 else 0) +
-                 (if match ph s' with Dialing _ => true | _ => false end then 1 else 0) <= 1 /\
-                 (if match ph s' with Dialing _ => true | _ => false end then 1 else 0) <= 1).
-    { intros s' [H|[H|[j H]]]; rewrite H; lia. }
-    specialize (Hd (dial w c s k o)).
-    assert (Hph : ph (dial w c s k o) = Live \/ ph (dial w c s k o) = Done \/ exists j, ph (dial w c s k o) = Dialing j).
-    { destruct w as [ab ed tf]. unfold dial. destruct o; destruct k; cbn; destruct ab, ed, tf; cbn;
-        repeat match goal with |- context [if ?b then _ else _] => destruct b end; cbn; eauto. }
-    specialize (Hd Hph). lia.
+    rewrite (dial_phase w c s k o). destruct o, k; lia.
   - destruct (nth_error (ss g) i) as [s|] eqn:E; [|split; assumption]. destruct (ph s) eqn:Hp; try (split; assumption).
     unfold commit; cbn [ss]; rewrite !(count_upd _ _ _ _ _ E). unfold is_live, is_dialing, finish in *. cbn [ph]. rewrite Hp. lia.
   - destruct (nth_error (ss g) i) as [s|] eqn:E; [|split; assumption]. destruct (ph s) eqn:Hp; try (split; assumption);
     unfold commit; cbn [ss]; rewrite !(count_upd _ _ _ _ _ E); unfold is_live, is_dialing, finish, close_d in *; cbn [ph]; rewrite Hp; lia.
 Qed.
 
-Lemma fold_serinv w c evs : good_sw w = true -> 0 < maxc c -> forall g,
-  no_early evs = true -> serial_from w c g evs = true -> AllOk c g -> Sums g -> SerInv c g ->
+Lemma fold_serinv c evs : 0 < maxc c -> forall g,
+  forallb allowed evs = true -> serial_from w c g evs = true -> AllOk c g -> Sums g -> SerInv c g ->
   SerInv c (fold_left (step w c) evs g).
 Proof.
-  intros Hw Hm. induction evs as [|e evs IH]; cbn; intros g Hn Hs A S I; [exact I|].
-  apply andb_true_iff in Hn. destruct Hn as [He Hn]. apply negb_true_iff in He.
+  intros Hm. induction evs as [|e evs IH]; cbn; intros g Hn Hs A S I; [exact I|].
+  apply andb_true_iff in Hn. destruct Hn as [He Hn].
   apply andb_true_iff in Hs. destruct Hs as [Hs1 Hs2].
   apply IH; try assumption.
   - now apply step_allok.
@@ -240,20 +263,20 @@ Proof.
 Qed.
 
 (* with serialised admissions the resource never exceeds max_connections *)
-Lemma l4_threshold_bound w c evs : good_sw w = true -> 0 < maxc c -> no_early evs = true ->
+Lemma l4_threshold_bound c evs : 0 < maxc c -> forallb allowed evs = true ->
   serial_from w c g0 evs = true -> res (run w c evs) <= maxc c.
 Proof.
-  intros Hw Hm Hn Hs.
+  intros Hm Hn Hs.
   assert (I : SerInv c (run w c evs)).
   { apply fold_serinv; try assumption; [constructor|unfold Sums; cbn; lia|unfold SerInv, count; cbn; lia]. }
-  pose proof (run_sums w c evs) as (S1 & _). pose proof (run_allok w c evs Hw Hn) as A.
+  pose proof (run_sums w c evs) as (S1 & _). pose proof (run_allok c evs Hn) as A.
   pose proof (sums_counts c _ A) as (C1 & _). destruct I as [I1 I2].
   pose proof (count_nonneg is_dialing (ss (run w c evs))).
   rewrite S1, C1. unfold unit_res. destruct (maxc c =? 0); lia.
 Qed.
 
 (* the admission decision itself, in every reachable state: refused exactly when the resource has reached the limit *)
-Lemma l4_admission w c evs i s : good_sw w = true -> 0 < maxc c -> no_early evs = true ->
+Lemma l4_admission c evs i s : 0 < maxc c -> forallb allowed evs = true ->
   let g := run w c evs in
   nth_error (ss g) i = Some s -> ph s = Accepted ->
   let g' := step w c g (Admit i) in
@@ -261,8 +284,8 @@ Lemma l4_admission w c evs i s : good_sw w = true -> 0 < maxc c -> no_early evs 
        exists s', nth_error (ss g') i = Some s' /\ ph s' = match tries c with O => Done | S _ => Dialing (tries c) end) /\
   (maxc c <= res g -> overflows g' = S (overflows g) /\ exists s', nth_error (ss g') i = Some s' /\ ph s' = Done).
 Proof.
-  intros Hw Hm Hn g E Hp g'.
-  assert (H0 : 0 <= res g) by (pose proof (l4_conserved w c evs Hw Hn) as L; cbn zeta in L; fold g in L; tauto).
+  intros Hm Hn g E Hp g'.
+  assert (H0 : 0 <= res g) by (pose proof (l4_conserved c evs Hn) as L; cbn zeta in L; fold g in L; tauto).
   subst g'. cbn [step]. rewrite E, Hp. unfold can_create.
   split; intros Hr.
   - replace ((maxc c =? 0) || (res g <? 0) || (res g <? maxc c)) with true by lia.
@@ -271,36 +294,45 @@ Proof.
     unfold commit; cbn [overflows ss]. split; [lia|]. eexists; (split; [eapply nth_upd_same; exact E|reflexivity]).
 Qed.
 
-(* ------------------------------------------------------------------ refutations for the code in the tree *)
-(* a close event handled before Connect returns: the unit taken at [A] is never given back *)
-Lemma l4_early_close_leaks :
-  let g := run sw_tree (mkCfg 1 1) [Accept; Admit 0; Dial 0 ConnOkEarly] in
+End Generic.
+
+(* ------------------------------------------------------------------ the repaired shape: every history *)
+Lemma all_allowed evs : forallb (allowed okb_all) evs = true.
+Proof. apply forallb_forall. intros [|i|i o|i|i] _; reflexivity. Qed.
+
+Definition l4_conserved_repaired c evs := l4_conserved sw_repaired okb_all (fun c s k o _ => dial_ok_repaired c s k o) c evs (all_allowed evs).
+Definition l4_admission_repaired c evs i s Hm := l4_admission sw_repaired okb_all (fun c s k o _ => dial_ok_repaired c s k o) c evs i s Hm (all_allowed evs).
+Definition l4_threshold_bound_repaired c evs Hm := l4_threshold_bound sw_repaired okb_all (fun c s k o _ => dial_ok_repaired c s k o) c evs Hm (all_allowed evs).
+
+(* ------------------------------------------------------------------ the shape before the repair *)
+Lemma allowed_no_early evs : no_early evs = true -> forallb (allowed okb_no_early) evs = true.
+Proof.
+  unfold no_early. rewrite !forallb_forall. intros H e He. specialize (H e He).
+  destruct e as [|i|i o|i|i]; try reflexivity. destruct o; cbn in *; try reflexivity; discriminate.
+Qed.
+
+Definition l4_conserved_old c evs (Hn : no_early evs = true) := l4_conserved sw_old okb_no_early dial_ok_old c evs (allowed_no_early evs Hn).
+
+(* a close event handled before Connect returns leaks the unit taken afterwards *)
+Lemma l4_early_close_leaks_old :
+  let g := run sw_old (mkCfg 1 1) [Accept; Admit 0; Dial 0 ConnOkEarly] in
   forallb is_done (ss g) = true /\ res g = 1 /\ g_host g = 1 /\ g_clu g = 0 /\ g_down g = 0.
 Proof. vm_compute. repeat split; reflexivity. Qed.
 
-(* two admissions between CanCreate and Increase: max_connections = 1 admits two *)
-Lemma l4_concurrent_admission_overshoots :
-  let evs := [Accept; Accept; Admit 0; Admit 1; Dial 0 ConnOk; Dial 1 ConnOk] in
-  no_early evs = true /\ res (run sw_tree (mkCfg 1 1) evs) = 2 /\ overflows (run sw_tree (mkCfg 1 1) evs) = 0%nat.
-Proof. vm_compute. repeat split; reflexivity. Qed.
-
-(* ------------------------------------------------------------------ the source-derived switches *)
-Lemma l4_source_shape : RelayAcctSrc_translator_ok = true /\ acct_shape_ok = true /\ good_sw src_sw = true.
-Proof. repeat split; reflexivity. Qed.
-
-Lemma l4_statement_refuted :
-  ~ (forall c evs, let g := run src_sw c evs in
+Lemma l4_old_statement_refuted :
+  ~ (forall c evs, let g := run sw_old c evs in
        forallb is_done (ss g) = true -> res g = 0 /\ g_host g = 0 /\ g_clu g = 0 /\ g_down g = 0).
 Proof.
-  intros H. specialize (H (mkCfg 1 1) [Accept; Admit 0; Dial 0 ConnOkEarly]). cbn zeta in H.
-  assert (D : forallb is_done (ss (run src_sw (mkCfg 1 1) [Accept; Admit 0%nat; Dial 0%nat ConnOkEarly])) = true) by (vm_compute; reflexivity).
+  intros H. specialize (H (mkCfg 1 1) [Accept; Admit 0%nat; Dial 0%nat ConnOkEarly]). cbn zeta in H.
+  assert (D : forallb is_done (ss (run sw_old (mkCfg 1 1) [Accept; Admit 0%nat; Dial 0%nat ConnOkEarly])) = true) by (vm_compute; reflexivity).
   destruct (H D) as [R _]. vm_compute in R. discriminate R.
 Qed.
 
+(* two admissions between CanCreate and Increase: max_connections = 1 admits two *)
 Lemma l4_threshold_refuted :
-  ~ (forall c evs, 0 < maxc c -> no_early evs = true -> res (run src_sw c evs) <= maxc c).
+  ~ (forall c evs, 0 < maxc c -> res (run sw_repaired c evs) <= maxc c).
 Proof.
   intros H. specialize (H (mkCfg 1 1) [Accept; Accept; Admit 0%nat; Admit 1%nat; Dial 0%nat ConnOk; Dial 1%nat ConnOk]).
-  assert (R : res (run src_sw (mkCfg 1 1) [Accept; Accept; Admit 0%nat; Admit 1%nat; Dial 0%nat ConnOk; Dial 1%nat ConnOk]) = 2) by (vm_compute; reflexivity).
-  rewrite R in H. cbn in H. specialize (H eq_refl eq_refl). lia.
+  assert (R : res (run sw_repaired (mkCfg 1 1) [Accept; Accept; Admit 0%nat; Admit 1%nat; Dial 0%nat ConnOk; Dial 1%nat ConnOk]) = 2) by (vm_compute; reflexivity).
+  rewrite R in H. cbn in H. specialize (H eq_refl). lia.
 Qed.
